@@ -2,18 +2,18 @@ CONSTANTS
   a = a
   b = b
   Frags = {a, b}
-  Bits = {1, 2}
+  Bits = {1}
   MaxWrites = 2
   MaxOpN = 1
   NoOpnSnapshot = FALSE
-  Kinds = {"bit", "roaring", "rowop", "large"}
+  Kinds = {"bit"}
   KeyChunks = 2
   CutClasses = {"inkey", "between", "afterid", "aftersize"}
-  UnrecognisedCuts = {}
-  TornTailFails = TRUE
-  RoaringTwoWrites = TRUE
-  RowOpAsync = TRUE
-  MultiSeparateWrites = TRUE
+  UnrecognisedCuts = {"between", "afterid"}
+  TornTailFails = FALSE
+  RoaringTwoWrites = FALSE
+  RowOpAsync = FALSE
+  MultiSeparateWrites = FALSE
   SnapTmpTruncated = TRUE
   Contentless = FALSE
 INIT Init
@@ -21,4 +21,7 @@ NEXT Next
 SYMMETRY FragPerms
 INVARIANT TypeOK
 INVARIANT RestartSucceeds
+INVARIANT AckedDurable
+INVARIANT InflightAtomicPerShard
+PROPERTY LeftoversIgnored
 CHECK_DEADLOCK FALSE
